@@ -103,6 +103,7 @@ func checkC12(c *Ctx) {
 	r.Rule("C12/GUARD/expired", "RemoveMessage in the scan is dominated by the true edge of an older-than-cutoff predicate on the same message's Date(), cutoff = Now().Add(−retentionPeriod); arguments are Mailbox() and ID() of that message")
 	r.Rule("C12/ZERO", "every call of the scan is dominated by an edge implying retentionPeriod > 0 (a guard weakened to `< 0` lets period 0 scan with cutoff = now and delete everything)")
 	r.Rule("C12/CANCEL", "RetentionScanner.Start / DoScan / visitor: every blocking operation is a select with a ctx.Done() arm that leaves; every exit of Start closes retentionShutdown; Join receives from it")
+	r.Rule("C12/COMPLETE", "a failed RemoveMessage does not end the scan: from its error edge no return inside the message loop, no jump out of that loop and no visitor result other than true is reachable except where ctx cancellation was observed")
 	r.Rule("C12/VISIT", "both stores' VisitMailboxes call the visitor with no lock held and pass it a freshly allocated slice")
 	scan := p.Method("pkg/storage", "RetentionScanner", "DoScan")
 	start := p.Method("pkg/storage", "RetentionScanner", "Start")
@@ -281,6 +282,7 @@ func checkC12(c *Ctx) {
 	c.retentionCancel("C12/CANCEL")
 	// ---- D4
 	c.c12Visit()
+	c.c12Complete(scan, rmObj)
 	// a delivery racing the scan must not be lost with a mailbox entry the scan's removal
 	// drops (decided by C07's entries-persist rule and C09's create rule)
 	nB := c.borrow(func(c2 *Ctx) {
@@ -521,4 +523,149 @@ func (c *Ctx) freshResult(g *ssa.Function, idx int, depth int) (bool, string) {
 		}
 	})
 	return okAll && n > 0, why
+}
+
+// c12Complete: a removal that fails (most often: the message was deleted by a client between
+// the snapshot and the removal, ErrNotExist) must not stop the pass — otherwise the rest of the
+// mailbox, and every mailbox not yet visited, keeps its expired mail.
+func (c *Ctx) c12Complete(scan *ssa.Function, rmObj *types.Func) {
+	r, p := c.R, c.P
+	var fns []*ssa.Function
+	for fn := range p.SyncReach(scan) {
+		if eng.FuncPkgPath(fn) == eng.FuncPkgPath(scan) {
+			fns = append(fns, fn)
+		}
+	}
+	sortFuncs(fns)
+	isCtxDone := func(v ssa.Value) bool {
+		call, ok := v.(*ssa.Call)
+		return ok && call.Call.IsInvoke() && call.Call.Method.Name() == "Done"
+	}
+	n := 0
+	ord := map[string]int{}
+	for _, fn := range fns {
+		fn := fn
+		// blocks in which cancellation has been observed: the ctx.Done() arm of a select, the
+		// true edge of ctx.Err() != nil
+		cancelled := map[*ssa.BasicBlock]bool{}
+		mark := func(root *ssa.BasicBlock) {
+			for _, b := range fn.Blocks {
+				if root.Dominates(b) {
+					cancelled[b] = true
+				}
+			}
+		}
+		eng.EachInstr(fn, func(in ssa.Instruction) {
+			if sel, ok := in.(*ssa.Select); ok {
+				for i, st := range sel.States {
+					if isCtxDone(st.Chan) {
+						if arm := eng.SelectArm(sel, i); arm != nil {
+							mark(arm)
+						}
+					}
+				}
+			}
+		})
+		for _, b := range fn.Blocks {
+			for k := 0; k < len(b.Succs) && len(b.Succs) == 2; k++ {
+				rel, ok := eng.EdgeRel(b, k)
+				if !ok || rel.Op != token.NEQ || !eng.IsNilConst(rel.Y) {
+					continue
+				}
+				if call, ok := rel.X.(*ssa.Call); ok && call.Call.IsInvoke() && call.Call.Method.Name() == "Err" && len(b.Succs[k].Preds) == 1 {
+					mark(b.Succs[k])
+				}
+			}
+		}
+		eng.EachInstr(fn, func(in ssa.Instruction) {
+			call, ok := in.(*ssa.Call)
+			if !ok || !eng.IsCallTo(call.Common(), rmObj) {
+				return
+			}
+			n++
+			cons := siteCons(p, in, ord, "after-failed-removal")
+			ev := errResultOf(call)
+			if ev == nil {
+				r.Ok("C12/COMPLETE", cons, p.InstrPos(in), "the removal's error is not consulted: the pass always continues")
+				return
+			}
+			// the innermost loop around the removal
+			var header *ssa.BasicBlock
+			for _, h := range loopHeaders(call.Block()) {
+				if header == nil || header.Dominates(h) {
+					header = h
+				}
+			}
+			inBody := func(b *ssa.BasicBlock) bool {
+				if header == nil {
+					return false
+				}
+				for _, hs := range loopHeaders(b) {
+					if hs == header {
+						return b != header
+					}
+				}
+				return false
+			}
+			stops := func(x ssa.Instruction) bool {
+				if cancelled[x.Block()] {
+					return false
+				}
+				if ret, isRet := x.(*ssa.Return); isRet {
+					if header != nil && inBody(x.Block()) {
+						return true // leaves the message loop from inside
+					}
+					if visitorSig(fn) {
+						b, isC := eng.ConstBool(eng.ReturnResults(ret)[0])
+						return !(isC && b)
+					}
+					return false
+				}
+				return false
+			}
+			var hit ssa.Instruction
+			for _, b := range fn.Blocks {
+				for k := 0; k < len(b.Succs) && len(b.Succs) == 2; k++ {
+					rel, ok := eng.EdgeRel(b, k)
+					if !ok || rel.Op != token.NEQ || rel.X != ev || !eng.IsNilConst(rel.Y) {
+						continue
+					}
+					avoid := func(x ssa.Instruction) bool {
+						// going round the loop again is the continuation we want; what happens in
+						// later iterations is judged from their own removal
+						return cancelled[x.Block()] || header != nil && x.Block() == header
+					}
+					if h := (&eng.Search{Target: stops, Avoid: avoid}).FromBlockStart(b.Succs[k]); h != nil && hit == nil {
+						hit = h
+					}
+					// a jump out of the loop body that bypasses the header (break / goto)
+					if header != nil && hit == nil {
+						seen := map[*ssa.BasicBlock]bool{}
+						work := []*ssa.BasicBlock{b.Succs[k]}
+						for len(work) > 0 && hit == nil {
+							x := work[len(work)-1]
+							work = work[:len(work)-1]
+							if seen[x] || x == header || cancelled[x] {
+								continue
+							}
+							seen[x] = true
+							if !inBody(x) {
+								if len(x.Instrs) > 0 {
+									hit = x.Instrs[0]
+								}
+								break
+							}
+							work = append(work, x.Succs...)
+						}
+					}
+				}
+			}
+			if hit != nil {
+				r.Bad("C12/COMPLETE", cons, p.InstrPos(hit), "when RemoveMessage fails (e.g. storage.ErrNotExist because a client deleted the message after the snapshot) the pass ends at %s: the remaining expired messages of this mailbox and of every mailbox not yet visited are kept", p.InstrPos(hit))
+			} else {
+				r.Ok("C12/COMPLETE", cons, p.InstrPos(in), "a failed removal is logged and the pass goes on; the scan stops early only where cancellation was observed")
+			}
+		})
+	}
+	r.Floor("C12/COMPLETE", "RemoveMessage sites in the scan", n, 1)
 }
